@@ -194,6 +194,10 @@ func (s *Stream) readBuf() []byte {
 	if s.filledBuffer {
 		s.bufSize *= 2
 		remainBuf := s.buf
+		for s.bufSize < int64(len(remainBuf)) {
+			// in-place replacement of invalid bytes may have made the buffer longer than twice its nominal size
+			s.bufSize *= 2
+		}
 		s.buf = make([]byte, s.bufSize)
 		copy(s.buf, remainBuf)
 	}
